@@ -493,7 +493,13 @@ Proof. vm_compute. repeat split. Qed.
    the raw bytes of the export by the xml family of this check, API 503).  Reading the
    character data back gives exactly the text, for EVERY list of Unicode code points; the
    decimal references are covered by an exhaustive kernel computation over all 1 114 112 code
-   points (the bound is in the statement). *)
+   points (the bound is in the statement).  xml_read is the MODEL's reader: a conforming XML
+   parser agrees with it on sequences of XML characters without carriage returns (what the tie
+   generates and checks with ElementTree's parser); C0 controls, surrogates and U+FFFE/FFFF are
+   not XML characters (the document ElementTree writes for them is not well-formed) and a
+   carriage return is normalised to a newline by every parser - those texts are outside the
+   documented domain, although the serialisation itself (xml_escape) is the code's for ALL
+   code points (audit 5 compared all 1 114 112). *)
 From Coq Require Import NArith.
 From Labella Require Import Text.Xml Text.XmlProofs.
 
